@@ -159,12 +159,6 @@ Definition mk_rs_st (s t ts a : Z) : CMDResponse_state :=
 Definition mk_rs_out (valid v : option Z) : CMDResponse_out := {| CMDResponse_o_valid := valid; CMDResponse_o_v := v |}.
 
 
-(* A PROBE of the regenerated encoder (finding C20-F1): in state 2 with temp_size = -1 (i.e. size = 0) and the consumer
-   ready, does the block go to the final '!' state 5?  false on the pinned tree (it computes temp >> -4: ValueError in
-   Python), true once the repair fixes/C20-F1.diff is committed.  resp_min_size is the smallest size the block handles. *)
-Definition resp_fixed : bool := CMDResponse_s_state (fst (CMDResponse_clock 1 8 (mk_rs_st 2 0 (-1) 0) 0 0 0 1)) =? 5.
-Definition min_size (fx : bool) : Z := if fx then 0 else 1.
-Definition resp_min_size : Z := min_size resp_fixed.
 
 Definition rs_step (wvalid wv : Z) (c : rs_cfg) (i : rs_in) : rs_cfg :=
   let '(st', r) := CMDResponse_clock wvalid wv (rs_st c) (i_vin i) (i_size i) (i_start i) (i_ready i) in
@@ -190,7 +184,7 @@ Fixpoint rs_xfers (wvalid wv : Z) (c : rs_cfg) (ins : list rs_in) : list Z :=
 (* number of cycles of an environment stream in which the consumer is ready *)
 Definition ready_count (ins : list rs_in) : nat := length (filter (fun i => on (i_ready i)) ins).
 
-Definition resp_ref (fx : bool) (wvalid wv : Z) (st : CMDResponse_state) (vin size start ready : Z) : CMDResponse_state * CMDResponse_out :=
+Definition resp_ref (wvalid wv : Z) (st : CMDResponse_state) (vin size start ready : Z) : CMDResponse_state * CMDResponse_out :=
   let s := CMDResponse_s_state st in let t := CMDResponse_s_temp st in
   let ts := CMDResponse_s_temp_size st in let a := CMDResponse_s_aux st in
   let N := @None Z in
@@ -201,7 +195,8 @@ Definition resp_ref (fx : bool) (wvalid wv : Z) (st : CMDResponse_state) (vin si
     else (mk_rs_st s t ts a, mk_rs_out N N)
   else if s =? 2 then
     if ready =? 0 then (mk_rs_st s t ts a, mk_rs_out (Some (trunc wvalid 1)) N)
-    else (if fx && (ts <? 0) then mk_rs_st 5 t ts a else mk_rs_st 3 t ts (Z.land (py_shr t (ts * 4)) 15),
+    else (if ts <? 0 then mk_rs_st 5 t ts a        (* size 0: no digit, straight to the final '!' *)
+          else mk_rs_st 3 t ts (Z.land (py_shr t (ts * 4)) 15),
           mk_rs_out (Some (trunc wvalid 0)) N)
   else if s =? 3 then
     if py_truth ready then
